@@ -240,6 +240,17 @@ func (P *Program) ResolveType(pkgPath, text string) (types.Type, error) {
 	}
 	if k := strings.LastIndex(text, "."); k >= 0 {
 		q, name := text[:k], text[k+1:]
+		if m := P.Specs.Imports[pkgPath]; m != nil {
+			if ip, ok := m[q]; ok {
+				if p := P.SSAPkgs[ip]; p != nil {
+					if obj := p.Pkg.Scope().Lookup(name); obj != nil {
+						if tn, ok := obj.(*types.TypeName); ok {
+							return tn.Type(), nil
+						}
+					}
+				}
+			}
+		}
 		for path, p := range P.SSAPkgs {
 			if p.Pkg.Name() == q || path == q {
 				if obj := p.Pkg.Scope().Lookup(name); obj != nil {
